@@ -158,7 +158,7 @@ func (p c18) expression(c *core.Ctx) {
 	hv, r := startHolder(c, []world.FieldSpec{{Name: "F", Type: ft, Tag: tag}}, env.doc)
 	c.Count("starts", 1)
 	detail := map[string]any{"tag": tag, "config": env.doc, "substituted_expression": sub, "direct_result": fmt.Sprintf("%#v", want), "direct_error": fmt.Sprint(derr), "outcome": core.Short(r.OutcomeDetail(), 300)}
-	if r.Outcome() == "panic" || r.Outcome() == "diverged" {
+	if abnormal(r.Outcome()) {
 		c.Fail("", fmt.Sprintf("tag %s: %s", tag, r.OutcomeDetail()), detail)
 		return
 	}
@@ -288,7 +288,7 @@ func (p c18) validation(c *core.Ctx) {
 	_, r := startHolder(c, []world.FieldSpec{{Name: "F", Type: ft, Tag: tag}}, env.doc)
 	c.Count("starts", 1)
 	detail := map[string]any{"tag": tag, "config": env.doc, "expected_bound_value": fmt.Sprintf("%#v", bound), "direct_validator_objects": fails, "outcome": core.Short(r.OutcomeDetail(), 300)}
-	if r.Outcome() == "panic" || r.Outcome() == "diverged" {
+	if abnormal(r.Outcome()) {
 		c.Fail("", fmt.Sprintf("tag %s: %s", tag, r.OutcomeDetail()), detail)
 		return
 	}
@@ -325,7 +325,7 @@ func (p c18) structValidation(c *core.Ctx) {
 	_, r := startHolder(c, []world.FieldSpec{{Name: "F", Type: ft, Tag: tag}}, "")
 	c.Count("starts", 1)
 	detail := map[string]any{"tag": tag, "struct": inner.String(), "direct_validator_objects": fails, "outcome": core.Short(r.OutcomeDetail(), 300)}
-	if r.Outcome() == "panic" || r.Outcome() == "diverged" {
+	if abnormal(r.Outcome()) {
 		c.Fail("", fmt.Sprintf("tag %s: %s", tag, r.OutcomeDetail()), detail)
 		return
 	}
@@ -364,7 +364,7 @@ func (p c18) staged(c *core.Ctx) {
 	hv, r := startHolder(c, []world.FieldSpec{{Name: "F", Type: reflect.TypeOf(0), Tag: tag}}, env.doc)
 	c.Count("starts", 1)
 	detail := map[string]any{"tag": tag, "config": env.doc, "substituted_expression": sub, "direct_result": wi, "direct_validator_objects": fails, "outcome": core.Short(r.OutcomeDetail(), 300)}
-	if r.Outcome() == "panic" || r.Outcome() == "diverged" {
+	if abnormal(r.Outcome()) {
 		c.Fail("", fmt.Sprintf("tag %s: %s", tag, r.OutcomeDetail()), detail)
 		return
 	}
